@@ -1,5 +1,5 @@
 import importlib, os, sys
-HOOK_COMMITS = ["bfc8887"]
+HOOK_COMMITS = ["bfc8887", "5ff94a2"]
 _here = os.path.dirname(os.path.abspath(__file__))
 sys.path.insert(0, _here)
 CHECKS = []
